@@ -74,7 +74,7 @@ def h3(ck: Check) -> None:
     par, child, motif = ps[0], ps[1], ps[2]
     adds = [n for n in own_walk(f.node) if isinstance(n, ast.Call) and (dotted(n.func) or "").endswith("dag.add_edge")]
     apps = [n for n in own_walk(f.node) if isinstance(n, ast.Call) and isinstance(n.func, ast.Attribute) and n.func.attr == "append"
-            and "all_motifs" in text(n.func.value)]
+            and "all_motifs" in fm.key(n.func.value, fm.cfgn(n))]
     probs = []
     if len(adds) != 1:
         probs.append("edge creation not found")
@@ -90,7 +90,7 @@ def h3(ck: Check) -> None:
         he = [x for x in logic.atoms(pc) if x[0] == "b" and "has_edge" in x[1]]
         if not he or not logic.implies(pc, logic.Not(("atom", he[0]))):
             probs.append("add_edge is not restricted to missing edges (an existing edge's motif list would be overwritten)")
-    if len(apps) != 1 or text(apps[0].args[0]) != motif or f"[{par}, {child}]" not in text(apps[0].func.value):
+    if len(apps) != 1 or text(apps[0].args[0]) != motif or f"[{par}, {child}]" not in fm.key(apps[0].func.value, fm.cfgn(apps[0])):
         probs.append("a further stable motif of an existing edge is not appended to that edge's all_motifs")
     rec = [fm.cfgn(x) for x in adds + apps]
     if rec and escapes(fm, fm.cfg.entry, rec, None, need_pre=False):
